@@ -100,7 +100,8 @@ def run_case(c):
         rq = float((v.conj() @ A @ v).real / nv ** 2)
         reach_min = float(np.min(P['reach'].real))
         for m in ms:
-            for numeig in sorted({1, min(m, kdim)} if m < kdim else {1}):
+            # also more eigenpairs than the Krylov space has (fewer are returned, without an error)
+            for numeig in sorted({1, min(m, kdim), m + 1} if m < kdim else {1, 2, kdim + 1}):
                 tag = f'n={n} m={m} kdim={kdim} numeig={numeig}'
                 try:
                     with warnings.catch_warnings():
@@ -138,8 +139,8 @@ def run_case(c):
                         fail('ritz_exact', f'{tag}: lowest Ritz value {th} vs smallest eigenvalue reachable from the start vector '
                                            f'{reach_min} (m >= Krylov dimension)')
                 else:
-                    if len(w) != numeig:
-                        fail('sizes', f'{tag}: {len(w)} Ritz values returned, {numeig} requested and available')
+                    if len(w) != min(numeig, m):
+                        fail('sizes', f'{tag}: {len(w)} Ritz values returned, {numeig} requested, {m} available')
                         continue
                     G = u.conj().T @ u
                     if not oracle.close(G, np.identity(len(w)), scale=1.0, tol=TOL):
